@@ -220,7 +220,44 @@ def run_case(lib, case):
     for kind in c12docs.KINDS:
         compare(kind, obs[kind], want[kind], fails)
     flat = {k: [c12docs.flatten(k, s) for s in obs[k]] for k in c12docs.KINDS}
+    followups(doc, A, lib, case, fails)
     return {'obs': flat, 'fails': fails}
+
+
+def followups(doc, A, lib, case, fails):
+    from collada import scene
+
+    def differ(clause, site, kind, got, want_structs, what):
+        want = [brief_of_struct(kind, x) for x in want_structs]
+        if got != want and len(fails) < 4:
+            fails.append({'clause': clause if [g[0] for g in got] == [w[0] for w in want] else 'one-per-path-in-order',
+                          'site': site, 'detail': '%s: %s objects %r, expected %r' % (what, kind, got[:4], want[:4])})
+    # a subtree entered with a matrix of the caller's: every object below is bound with that matrix times its path
+    if case.get('enter'):
+        ri, tr = case['enter']
+        M0 = c12docs.transform_matrix(tr)
+        arr = numpy.array(M0, dtype=numpy.float32)
+        want = c12docs.expected(lib, case, c12docs.paths(case, only_root=ri, prefix=[M0]))
+        root = doc.scene.nodes[ri]
+        for kind in ('geometry', 'camera', 'light'):
+            differ('matrix', 'subtree-entered-with-a-matrix', kind, [brief(A, kind, o) for o in root.objects(kind, arr)], want[kind],
+                   'node %s .objects(%r, M0)' % (case['roots'][ri]['id'], kind))
+    # one node's transform list is extended and saved: the next traversal binds with the new node matrix
+    nid = case.get('edit_after')
+    if nid:
+        node = None
+        for n in doc.scene.nodes:
+            if n.id == nid:
+                node = n
+        if node is None:
+            node = doc.nodes.get(nid)
+        t = c12docs.EDIT_TRANSFORM
+        node.transforms.append(scene.TranslateTransform(t[1], t[2], t[3]))
+        node.save()
+        want = c12docs.expected(lib, c12docs.edited(case, nid))
+        for kind in ('geometry', 'camera', 'light'):
+            differ('matrix', 'after-extending-a-node', kind, [brief(A, kind, o) for o in list(doc.scene.objects(kind))], want[kind],
+                   'after appending a translate to node %s and save()' % nid)
 
 
 class CaseTimeout(BaseException):
